@@ -27,6 +27,17 @@ mut('c20-last-tick-min', ['C20'], 'src/section/hit_objects/slider/event.rs', '(s
 mut('c20-repeat-on-last-span', ['C20'], 'src/section/hit_objects/slider/event.rs', 'let with_repeat = span < iter.span_count - 1;', 'let with_repeat = span < iter.span_count;')
 mut('c20-min-dist-gt', ['C20'], 'src/section/hit_objects/slider/event.rs', 'if d >= iter.len - iter.min_dist_from_end {', 'if d > iter.len - iter.min_dist_from_end + 1.0 {')
 
+# ---- C16 / C17
+mut('c16-drop-equal-points-exception', ['C16'], 'src/section/hit_objects/slider/curve.rs', 'if matches!(path.as_slice() , [.., a, b] if a == b && expected_len > calculated_len) {', 'if false {')
+mut('c16-truncate-one-more', ['C16'], 'src/section/hit_objects/slider/curve.rs', 'path.truncate(last_valid + 1);', 'path.truncate(last_valid);')
+mut('c16-lt-to-le', ['C16'], 'src/section/hit_objects/slider/curve.rs', '.position(|l| *l < expected_len)', '.position(|l| *l <= expected_len)')
+mut('c17-bezier-tol-2', ['C17'], 'src/section/hit_objects/slider/curve.rs', 'const BEZIER_TOLERANCE: f32 = 0.25;', 'const BEZIER_TOLERANCE: f32 = 2.0;')
+mut('c17-arc-dir-inverted', ['C17'], 'src/section/hit_objects/slider/curve.rs', 'if ortho_a_to_c.dot(b - a) < 0.0 {', 'if ortho_a_to_c.dot(b - a) > 0.0 {')
+mut('c17-catmull-detail-5', ['C17'], 'src/section/hit_objects/slider/curve.rs', 'const CATMULL_DETAIL: usize = 50;', 'const CATMULL_DETAIL: usize = 5;')
+mut('c17-arc-tol-1', ['C17'], 'src/section/hit_objects/slider/curve.rs', 'const CIRCULAR_ARC_TOLERANCE: f32 = 0.1;', 'const CIRCULAR_ARC_TOLERANCE: f32 = 1.0;')
+mut('c17-no-joint-dedupe', ['C17'], 'src/section/hit_objects/slider/curve.rs', '                if skip_first {', '                if false && skip_first {')
+mut('c17-catmull-v4-extrap', ['C17'], 'src/section/hit_objects/slider/curve.rs', 'let v4 = points.get(i + 1).copied().unwrap_or_else(|| v3 * 2.0 - v2);', 'let v4 = points.get(i + 1).copied().unwrap_or(v3);')
+
 def sh(cmd, **kw):
     return subprocess.run(cmd, shell=True, capture_output=True, text=True, **kw)
 
